@@ -18,7 +18,9 @@
 //	                                its reverse (shallow first / leaves first), r random, e/E all but
 //	                                <keep> evenly spaced keys ascending / descending, s/p the m
 //	                                shallowest / deepest keys by their REAL depth (read from the node
-//	                                pointers by the hook), ties by rank.
+//	                                pointers by the hook), ties by rank; P the m keys with the shortest
+//	                                longest root-to-leaf path through them first (depth of the key + height
+//	                                of its subtree): what remains are the deepest keys WITH their ancestors.
 //	                                item r<number of Removes that returned true>
 //	Q<s>                            probe every key, see probe() for the item
 //	every op of the W lines         over cursor registers; A and R reset the registers (a tree must not
@@ -158,8 +160,9 @@ func orderIdx(pat byte, n, seed int) []int {
 	return out
 }
 
-// removalIdx: which ranks (of L keys) to remove, in order, so that keep remain; depths only for s/p
-func removalIdx(ord byte, L, keep, seed int, depths func() []int) []int {
+// removalIdx: which ranks (of L keys) to remove, in order, so that keep remain; metric (the real depths
+// for s/p, depth + height for P, in in-order) only for s/p/P
+func removalIdx(ord byte, L, keep, seed int, metric func(ord byte) []int) []int {
 	m := L - keep
 	if m <= 0 || keep < 0 {
 		return nil
@@ -190,14 +193,14 @@ func removalIdx(ord byte, L, keep, seed int, depths func() []int) []int {
 			out = reversed(out)
 		}
 		return out
-	case 's', 'p':
-		d := depths()
+	case 's', 'p', 'P':
+		d := metric(ord)
 		idx := orderIdx('a', L, 0)
 		sort.SliceStable(idx, func(a, b int) bool {
-			if ord == 's' {
-				return d[idx[a]] < d[idx[b]]
+			if ord == 'p' {
+				return d[idx[a]] > d[idx[b]]
 			}
-			return d[idx[a]] > d[idx[b]]
+			return d[idx[a]] < d[idx[b]]
 		})
 		return idx[:m]
 	}
@@ -236,6 +239,44 @@ func depthsInorder(t *stree.Tree[int]) []int {
 	}
 	rec(0)
 	return out
+}
+
+// throughInorder: for every node in in-order, its depth plus the height of its subtree (edges): the
+// length of the longest root-to-leaf path through the node
+func throughInorder(t *stree.Tree[int]) []int {
+	toks := strings.Split(dump(t), ",")
+	pos := 0
+	var out []int
+	var rec func(d int) int
+	rec = func(d int) int {
+		if pos >= len(toks) {
+			return -1
+		}
+		tok := toks[pos]
+		pos++
+		if tok == "." {
+			return -1
+		}
+		hl := rec(d + 1)
+		at := len(out)
+		out = append(out, 0)
+		hr := rec(d + 1)
+		h := 1 + max(hl, hr)
+		out[at] = d + h
+		return h
+	}
+	rec(0)
+	return out
+}
+
+// shapeMetric: what the orders s, p (depth) and P (depth + height) sort by
+func shapeMetric(t *stree.Tree[int]) func(ord byte) []int {
+	return func(ord byte) []int {
+		if ord == 'P' {
+			return throughInorder(t)
+		}
+		return depthsInorder(t)
+	}
 }
 
 func bitsOf(c *stree.Cursor[int]) int {
@@ -420,11 +461,11 @@ func applyMacro(t *stree.Tree[int], op string) (item string, ok bool) {
 		}
 		keep, ok1 := atoiOK(a[1])
 		seed, ok2 := atoiOK(a[2])
-		if !ok1 || !ok2 || !strings.Contains("lhoibBreEsp", a[0]) {
+		if !ok1 || !ok2 || !strings.Contains("lhoibBreEspP", a[0]) {
 			return "?", true
 		}
 		keys := inorderKeys(t)
-		idx := removalIdx(a[0][0], len(keys), keep, seed, func() []int { return depthsInorder(t) })
+		idx := removalIdx(a[0][0], len(keys), keep, seed, shapeMetric(t))
 		cnt := 0
 		for _, j := range idx {
 			if t.Remove(keys[j]) {
